@@ -1,5 +1,144 @@
-From LibaV Require Import C03.IterDefs.
-(* placeholder while the pipeline is being brought up; replaced by the real statements *)
-Theorem c03_placeholder : root_id E = None.
-Proof. exact eq_refl. Qed.
-Print Assumptions c03_placeholder.
+(* C03 - Tree iterators enumerate every element exactly once in the documented order; tear-down hands
+   out children before parents, never touches a handed-out node, and leaves the tree empty.
+
+   Model: coq/C03/IterDefs.v (the ten navigation functions, the foreach protocol and tear/fortear of
+   src/avl.c / src/rbt.c, on a heap  id -> left/right/parent; reads of unallocated ids are [Stuck],
+   exhausted loops [OutOfFuel]).  Every theorem is for EVERY binary tree t with distinct ids (a
+   superset of the shapes an AVL / red-black history can reach, and of what an interrupted tear
+   leaves), every reader rd that lays t out with parent links ([Repr rd None t]) and every
+   fuel > size t; [Ok] in a conclusion means: neither Stuck nor OutOfFuel.
+   Non-vacuity Examples: coq/C03/IterExamples.v. *)
+
+From Coq Require Import List PArith ZArith FMapPositive Permutation Sorted.
+From LibaV Require Import C03.IterDefs C03.Clauses C03.TearProofs C03.HeapProofs.
+Import ListNotations.
+
+(* in-order iteration yields all elements in in-order, the reverse iteration in reverse in-order *)
+Theorem C03_inorder_foreach :
+  forall (rd : id -> option node) (t : tree) (fuel : nat),
+    Repr rd None t -> NoDup (ids t) -> size t < fuel ->
+    foreach rd fuel (root_id t) = Ok (inorder t)
+    /\ foreach_reverse rd fuel (root_id t) = Ok (rev (inorder t)).
+Proof. exact clause_inorder. Qed.
+Print Assumptions C03_inorder_foreach.
+
+(* ... which, for a search tree (what C01/C02 prove of reachable trees), is ascending resp. descending key order *)
+Theorem C03_inorder_ascending_keys :
+  forall (rd : id -> option node) (t : tree) (fuel : nat),
+    Repr rd None t -> NoDup (ids t) -> size t < fuel ->
+    forall key : id -> Z, Bst key t ->
+    exists l, foreach rd fuel (root_id t) = Ok l
+              /\ StronglySorted (fun a b => (key a < key b)%Z) l
+              /\ foreach_reverse rd fuel (root_id t) = Ok (rev l)
+              /\ StronglySorted (fun a b => (key b < key a)%Z) (rev l).
+Proof. exact clause_ascending. Qed.
+Print Assumptions C03_inorder_ascending_keys.
+
+(* successor and predecessor steps are mutually inverse *)
+Theorem C03_next_prev_inverse :
+  forall (rd : id -> option node) (t : tree) (fuel : nat),
+    Repr rd None t -> NoDup (ids t) -> size t < fuel ->
+    forall x y,
+      (In x (ids t) -> next rd fuel x = Ok (Some y) -> prev rd fuel y = Ok (Some x))
+      /\ (In y (ids t) -> prev rd fuel y = Ok (Some x) -> next rd fuel x = Ok (Some y)).
+Proof. exact clause_inverse. Qed.
+Print Assumptions C03_next_prev_inverse.
+
+(* pre-order, mirrored pre-order (root right left), post-order, mirrored post-order (right left root) *)
+Theorem C03_pre_post_foreach :
+  forall (rd : id -> option node) (t : tree) (fuel : nat),
+    Repr rd None t -> NoDup (ids t) -> size t < fuel ->
+    pre_foreach rd fuel (root_id t) = Ok (preorder t)
+    /\ pre_foreach_reverse rd fuel (root_id t) = Ok (preorder_rl t)
+    /\ post_foreach rd fuel (root_id t) = Ok (postorder t)
+    /\ post_foreach_reverse rd fuel (root_id t) = Ok (postorder_rl t).
+Proof. exact clause_pre_post. Qed.
+Print Assumptions C03_pre_post_foreach.
+
+(* from EVERY starting node each iteration yields exactly the rest of its order *)
+Theorem C03_iterate_from_any_node :
+  forall (rd : id -> option node) (t : tree) (fuel : nat),
+    Repr rd None t -> NoDup (ids t) -> size t < fuel ->
+    forall pre x post,
+      (inorder t = pre ++ x :: post -> iterate (next rd fuel) fuel (Some x) = Ok (x :: post))
+      /\ (rev (inorder t) = pre ++ x :: post -> iterate (prev rd fuel) fuel (Some x) = Ok (x :: post))
+      /\ (preorder t = pre ++ x :: post -> iterate (pre_next rd fuel) fuel (Some x) = Ok (x :: post))
+      /\ (preorder_rl t = pre ++ x :: post -> iterate (pre_prev rd fuel) fuel (Some x) = Ok (x :: post))
+      /\ (postorder t = pre ++ x :: post -> iterate (post_next rd fuel) fuel (Some x) = Ok (x :: post))
+      /\ (postorder_rl t = pre ++ x :: post -> iterate (post_prev rd fuel) fuel (Some x) = Ok (x :: post)).
+Proof. exact clause_from_any_node. Qed.
+Print Assumptions C03_iterate_from_any_node.
+
+(* a single step from a node of the tree never fails and never leaves the tree *)
+Theorem C03_steps_total :
+  forall (rd : id -> option node) (t : tree) (fuel : nat),
+    Repr rd None t -> NoDup (ids t) -> size t < fuel ->
+    forall x, In x (ids t) ->
+      let inside o := match o with Some y => In y (ids t) | None => True end in
+      (exists o, next rd fuel x = Ok o /\ inside o)
+      /\ (exists o, prev rd fuel x = Ok o /\ inside o)
+      /\ (exists o, pre_next rd fuel x = Ok o /\ inside o)
+      /\ (exists o, pre_prev rd fuel x = Ok o /\ inside o)
+      /\ (exists o, post_next rd fuel x = Ok o /\ inside o)
+      /\ (exists o, post_prev rd fuel x = Ok o /\ inside o).
+Proof. exact clause_steps_total. Qed.
+Print Assumptions C03_steps_total.
+
+(* each of the six documented orders lists every element exactly once *)
+Theorem C03_orders_exactly_once :
+  forall t : tree, NoDup (ids t) ->
+    let once L := NoDup L /\ Permutation L (ids t) in
+    once (inorder t) /\ once (rev (inorder t)) /\ once (preorder t) /\ once (preorder_rl t)
+    /\ once (postorder t) /\ once (postorder_rl t).
+Proof. exact clause_exactly_once. Qed.
+Print Assumptions C03_orders_exactly_once.
+
+(* the two mirrored orders are the reversals of post-order and pre-order *)
+Theorem C03_mirrored_orders :
+  forall t : tree, preorder_rl t = rev (postorder t) /\ postorder_rl t = rev (preorder t).
+Proof. exact clause_mirrored_orders. Qed.
+Print Assumptions C03_mirrored_orders.
+
+(* complete tear-down (each handed-out node is freed at once = removed from the heap): never Stuck,
+   hands out post-order = every element exactly once, children before parents; root, saved next and
+   heap are empty afterwards *)
+Theorem C03_tear_complete :
+  forall (h : heap) (t : tree) (fuel k : nat),
+    Repr (rdh h) None t -> NoDup (ids t) -> hsub h t -> size t < fuel -> size t <= k ->
+    exists st', fortear fuel k (mkT h (root_id t) None) = Ok (postorder t, st')
+      /\ ChildrenFirst (postorder t) t
+      /\ NoDup (postorder t) /\ Permutation (postorder t) (ids t)
+      /\ troot st' = None /\ tnext st' = None /\ (forall x, rdh (th st') x = None).
+Proof. exact clause_tear_complete. Qed.
+Print Assumptions C03_tear_complete.
+
+(* tear-down interrupted after any number k of nodes: the first k of post-order were handed out, the
+   heap is again the parent-linked layout of a tree t' (so every theorem above applies to it) holding
+   exactly the nodes not handed out, and resuming from the saved state hands out the rest and empties
+   the tree *)
+Theorem C03_tear_interrupted :
+  forall (h : heap) (t : tree) (fuel k : nat),
+    Repr (rdh h) None t -> NoDup (ids t) -> hsub h t -> size t < fuel ->
+    exists st' t',
+      fortear fuel k (mkT h (root_id t) None) = Ok (firstn k (postorder t), st')
+      /\ Repr (rdh (th st')) None t' /\ NoDup (ids t') /\ troot st' = root_id t' /\ hsub (th st') t'
+      /\ postorder t' = skipn k (postorder t)
+      /\ size t' < fuel
+      /\ (forall k2, size t' <= k2 ->
+            exists st'', fortear fuel k2 st' = Ok (skipn k (postorder t), st'')
+                         /\ troot st'' = None /\ (forall x, rdh (th st'') x = None)).
+Proof. exact fortear_interrupted. Qed.
+Print Assumptions C03_tear_interrupted.
+
+(* the hypotheses are satisfiable for every tree with distinct ids: its canonical heap *)
+Theorem C03_heap_of_repr :
+  forall t : tree, NoDup (ids t) -> Repr (rdh (heap_of t)) None t /\ hsub (heap_of t) t.
+Proof. exact clause_heap_of. Qed.
+Print Assumptions C03_heap_of_repr.
+
+(* what the model driver's well-formedness verdict on a dumped C heap means *)
+Theorem C03_wf_heap_sound :
+  forall (h : heap) (root : option id) (n : nat), wf_heap h root n = true ->
+    exists t, Repr (rdh h) None t /\ NoDup (ids t) /\ root_id t = root /\ size t = n /\ hsub h t.
+Proof. exact wf_heap_sound. Qed.
+Print Assumptions C03_wf_heap_sound.
